@@ -98,8 +98,14 @@ def gen_ops(rng, obs, nops):
     # overflow scenario (C09: "also for tours using the infinitely distant overflow depot"): a tour on the overflow depot
     # gets ONE of its depots replaced by a real one through a path insertion, later the other one (both orders, also
     # both at once), with depot places freed by deleting vehicles first
-    if rng.random() < 0.5:
-        for _ in range(rng.choice([1, 2])):
+    if rng.random() < 0.6:
+        # fill the depots so that further vehicles start at the overflow depot
+        for _ in range(rng.choice([0, 2, 4])):
+            ty = rng.randrange(nt)
+            ch = netobs.random_chain(rng, obs, ty, density=0.15)
+            if ch:
+                ops.append(["spawn", ty, ch[:2]])
+        for _ in range(rng.choice([1, 2, 3])):
             if rng.random() < 0.6:
                 ops.append(["delete", 2000 + rng.randrange(8)])
             ty = rng.randrange(nt)
@@ -107,14 +113,19 @@ def gen_ops(rng, obs, nops):
             ch2 = netobs.random_chain(rng, obs, ty, density=0.3)
             if not ch1 or not ch2:
                 continue
-            first = rng.choice(["start", "end", "both"])
+            first = rng.choice(["start", "end", "both", "handover", "handover"])
             v = 5000 + rng.randrange(4)
-            if first == "start":
+            if first == "handover":
+                # a real-depot vehicle hands its start depot and its activities (not its end depot) to a vehicle on the
+                # overflow depot; then the receiver's overflow end depot is replaced through a path insertion
+                ops.append([rng.choice(["override", "fit"]), 2000 + rng.randrange(8), 0, rng.choice([1, 2, 2, 3]), v])
+                ops.append(["addpath", rng.choice([v, v, 3000]), ch2 + [rng.choice(obs.edepots)]])
+            elif first == "start":
                 ops.append(["addpath", v, [rng.choice(obs.sdepots)] + ch1])
-                ops.append(["addpath", rng.choice([3000, 2000 + rng.randrange(8), v]), ch2 + [rng.choice(obs.edepots)]])
+                ops.append(["addpath", rng.choice([v, v, 3000]), ch2 + [rng.choice(obs.edepots)]])
             elif first == "end":
                 ops.append(["addpath", v, ch1 + [rng.choice(obs.edepots)]])
-                ops.append(["addpath", rng.choice([3000, 2000 + rng.randrange(8), v]), [rng.choice(obs.sdepots)] + ch2])
+                ops.append(["addpath", rng.choice([v, v, 3000]), [rng.choice(obs.sdepots)] + ch2])
             else:
                 ops.append(["addpath", v, [rng.choice(obs.sdepots)] + ch1 + [rng.choice(obs.edepots)]])
             if rng.random() < 0.5:
@@ -328,7 +339,8 @@ def main(pid, tier, seed, what):
     nops = 25 if tier == "quick" else 40
     rng = random.Random(seed * 7919 + int(pid[1:]))
     d = lib.casedir(pid)
-    profiles = [None, {"slots": "some"}, {"depots": "scarce", "slots": "some"}, {"zero_shunting": True},
+    profiles = [None, {"slots": "some"}, {"depots": "scarce", "slots": "some"}, {"depots": "scarce", "ntypes": 1},
+                {"depots": "scarce", "ntypes": 2, "slots": "some", "maxdist": "mid"}, {"zero_shunting": True},
                 {"depots": "zero"}, {"depots": "restricted", "ntypes": 2},
                 {"depots": "ample", "ntypes": 1, "nlocs": 4, "slots": "some", "maxdist": "mid"},
                 {"depots": "absent", "ntypes": 1, "nlocs": 4}]
